@@ -337,6 +337,13 @@ def chk_decoders(case, note):
         n += 1
         if not outcome_same(ra, rb):
             return "adsb.%s(%s, %r): with py_common -> %r, with c_common -> %r" % (name, m, args, ra, rb)
+    if len(m) == 28:
+        # the two-register arbitration, with the reference altitude given, given as None, and left out (whatever the signature does with that)
+        for args in ((250.0, 90.0, 10000.0), (250.0, 90.0, None), (250.0, 90.0), (0, 0, 0)):
+            ra, rb = call(P.bds.is50or60, m, *args), call(C.bds.is50or60, m, *args)
+            n += 1
+            if not outcome_same(ra, rb):
+                return "bds.is50or60(%s%s): with py_common -> %r, with c_common -> %r" % (m, "".join(", %r" % a for a in args), ra, rb)
     outs = []
     for pkg in (P, C):
         buf = io.StringIO()
